@@ -481,7 +481,7 @@ func checkDefs() map[string]*CheckDef {
 			Prop: "C03",
 			Scripts: []string{"drain-refill", "drain-exact", "drain-slashed", "drain-slashed-2", "validator-removed", "drain-dust-a", "drain-dust-b"},
 			ProbeEvery: 3,
-			Runs: []ProfRun{{"core", 64, 1200}, {"extreme", 48, 900}},
+			Runs: []ProfRun{{"core", 64, 1200}, {"extreme", 48, 900}, {"native", 16, 300}},
 			Mons: func(r *Runner) []Monitor { return []Monitor{NewMonC03(r)} },
 			Required: []string{"C03.slash", "C03.take-rate", "C03.tx.undelegate", "C03.tx.redelegate", "C03.validator-removed-with-delegations", "C03.drain-resets-foreign-dust"},
 			Rule: "seeded random histories (core/extreme); after every step the share sums are recomputed from an independent decoder of the raw module store and compared exactly with the recorded totals, negatives and reset-on-drain are checked, and the module's registered invariants plus all SDK invariants (crisis) run every block; a situation class = step kind x slash-fraction class x drained-asset/take-rate situations",
@@ -640,7 +640,7 @@ func valueDefs() []*CheckDef {
 		{
 			Prop: "C05",
 			Scripts: []string{"validator-removed"},
-			Runs: []ProfRun{{"core", 32, 600}, {"queue", 16, 300}, {"extreme", 24, 450}},
+			Runs: []ProfRun{{"core", 32, 600}, {"queue", 16, 300}, {"extreme", 24, 450}, {"native", 8, 150}},
 			Mons: func(r *Runner) []Monitor { return []Monitor{NewMonC12(r), NewMonC05(r)} },
 			ProbeEvery: 4,
 			Required: []string{"C05.state/slashes0", "C05.state/slashes1", "C05.state/slashes3", "C05.validator-removed"},
@@ -736,7 +736,7 @@ func lateDefs() []*CheckDef {
 	return []*CheckDef{
 		{
 			Prop: "C18",
-			Runs: []ProfRun{{"queue", 40, 800}, {"core", 24, 500}, {"gov", 12, 250}},
+			Runs: []ProfRun{{"queue", 40, 800}, {"core", 24, 500}, {"gov", 12, 250}, {"native", 8, 150}},
 			Mons: func(r *Runner) []Monitor { return []Monitor{NewMonC18(r)} },
 			Required: []string{"C18.boundary/", "C18.continuation-equal", "red1", "unb1", "snapshotstrue", "slashed-entriestrue"},
 			Rule: "at every 5th block boundary (after end-of-block, before the next begin-block) of seeded histories: branch A = state as is, branch B = module store wiped and InitGenesis(JSON round trip of ExportGenesis(A)); the second export must be byte-identical; then the same 14-step continuation (user operations, blocks with evidence slashes of validators with pending entries, jumps over the unbonding period) runs on both in lock-step and after every step results, event digests, all account balances, supply, validator states, a fresh export and the unbonding/redelegation/delegation queries must be equal; a situation class = (pending unbondings, pending redelegations, merged records, weight snapshots, warm-up asset, partially slashed entries, rebalance flag set)",
